@@ -154,7 +154,29 @@ func c02R1(a *A, r *Roles) {
 			}
 		})
 	}
-	// closure values used only as direct callees
+	// closure values used only as direct callees (methods of a state object: only ever called, by the parser)
+	if r.StateT != nil {
+		for name, fn := range map[string]*ssa.Function{"commit": r.Commit, "begin": r.Begin} {
+			if fn == nil {
+				continue
+			}
+			k := 0
+			for _, f := range w.srcFuncs(w.Root) {
+				instrs(f, func(in ssa.Instruction) {
+					for _, op := range in.Operands(nil) {
+						if op == nil || *op != ssa.Value(fn) {
+							continue
+						}
+						k++
+						key := fmt.Sprintf("closure-use@%s#%d", name, k)
+						c, isCall := in.(*ssa.Call)
+						okUse := isCall && c.Common().Value == ssa.Value(fn) && (f == r.Parser || f.Parent() == r.Parser)
+						a.check(okUse, rule, key, w.posOf(in), "direct call from the parser", fmt.Sprintf("the %s method is used other than by a direct call from the parser (%T in %s): its call sites can no longer be enumerated", name, in, f.Name()))
+					}
+				})
+			}
+		}
+	}
 	for name, mc := range map[string]*ssa.MakeClosure{"commit": r.CommitMC, "begin": r.BeginMC} {
 		if mc == nil {
 			continue // no begin closure: BEGIN is handled in its arm (R3)
@@ -185,11 +207,7 @@ func c02R1(a *A, r *Roles) {
 func c02R2(a *A, r *Roles, ar *Arms) {
 	const rule = "C02-R2"
 	n := map[string]int{}
-	for _, ref := range *r.CommitMC.Referrers() {
-		c, ok := ref.(*ssa.Call)
-		if !ok || c.Common().Value != ssa.Value(r.CommitMC) {
-			continue
-		}
+	for _, c := range r.commitCalls() {
 		lab := ar.label(c.Block())
 		n[lab]++
 		key := fmt.Sprintf("commit-site@parser[arm=%s#%d]", lab, n[lab])
@@ -235,6 +253,42 @@ func bufferStoreKind(r *Roles, st *ssa.Store) (string, ssa.Value) {
 	return "other", nil
 }
 
+// appendedElems: the values a buffer append stores into its variadic array, as seen at the place of effect (a parameter
+// of a helper method of the state object reads as the argument of the call).
+func appendedElems(r *Roles, s cellStore) []ssa.Value {
+	kind, elems := bufferStoreKind(r, s.Store)
+	if kind != "append" {
+		return nil
+	}
+	sl, ok := elems.(*ssa.Slice)
+	if !ok {
+		return nil
+	}
+	al, ok := sl.X.(*ssa.Alloc)
+	if !ok {
+		return nil
+	}
+	var out []ssa.Value
+	for _, ref := range *al.Referrers() {
+		if ia, ok := ref.(*ssa.IndexAddr); ok {
+			for _, rr := range *ia.Referrers() {
+				if st, ok := rr.(*ssa.Store); ok {
+					v := resolve(st.Val)
+					if p, isP := v.(*ssa.Parameter); isP && s.At != nil {
+						for i, q := range s.Store.Parent().Params {
+							if q == p && i < len(s.At.Common().Args) {
+								v = resolve(s.At.Common().Args[i])
+							}
+						}
+					}
+					out = append(out, v)
+				}
+			}
+		}
+	}
+	return out
+}
+
 // appendedCount returns the number of elements in the variadic slice arg of append, if known.
 func appendedCount(v ssa.Value) int {
 	sl, ok := v.(*ssa.Slice)
@@ -265,12 +319,8 @@ func c02R3(a *A, r *Roles, ar *Arms) {
 	beginBlocks := map[*ssa.BasicBlock]bool{}
 	installBlocks := map[*ssa.BasicBlock]bool{}
 	onlyBegin := map[string]bool{"Query/Begin": true}
-	if r.BeginMC != nil {
-		for _, ref := range *r.BeginMC.Referrers() {
-			c, ok := ref.(*ssa.Call)
-			if !ok {
-				continue
-			}
+	if r.Begin != nil {
+		for _, c := range r.beginCalls() {
 			lab := ar.label(c.Block())
 			beginBlocks[c.Block()] = true
 			installBlocks[c.Block()] = true
@@ -282,10 +332,10 @@ func c02R3(a *A, r *Roles, ar *Arms) {
 			if s.Fn != r.Parser {
 				continue
 			}
-			if b, isC := constBool(s.Store.Val); isC && !b {
-				lab := ar.label(s.Store.Block())
-				beginBlocks[s.Store.Block()] = true
-				a.check(subset(ar.set(s.Store.Block()), onlyBegin), rule, nk("begin-site", lab), w.posOf(s.Store),
+			if b, isC := constBool(s.val()); isC && !b {
+				lab := ar.label(s.block())
+				beginBlocks[s.block()] = true
+				a.check(subset(ar.set(s.block()), onlyBegin), rule, nk("begin-site", lab), w.posOf(s.instr()),
 					"BEGIN opens a transaction", "a transaction is opened (flag cleared) by an event that is not BEGIN")
 			}
 		}
@@ -297,37 +347,37 @@ func c02R3(a *A, r *Roles, ar *Arms) {
 		if s.Fn != r.Parser {
 			continue
 		}
-		lab := ar.label(s.Store.Block())
-		as := ar.set(s.Store.Block())
+		lab := ar.label(s.block())
+		as := ar.set(s.block())
 		kind, elems := bufferStoreKind(r, s.Store)
 		key := nk("buffer-write", lab)
 		switch kind {
 		case "append":
 			cnt := appendedCount(elems)
 			if subset(as, changeArms) && cnt == 1 {
-				a.hold(rule, key, w.posOf(s.Store), "one change appended")
-				appendBlocks[s.Store.Block()] = true
+				a.hold(rule, key, w.posOf(s.instr()), "one change appended")
+				appendBlocks[s.block()] = true
 			} else if !subset(as, changeArms) {
-				a.viol(rule, key, w.posOf(s.Store), "an event of arm %q appends to the transaction buffer; only DDL/DML statements and rows events carry changes", lab)
+				a.viol(rule, key, w.posOf(s.instr()), "an event of arm %q appends to the transaction buffer; only DDL/DML statements and rows events carry changes", lab)
 			} else {
-				a.viol(rule, key, w.posOf(s.Store), "a change arm appends %d elements to the buffer (expected exactly one per event)", cnt)
+				a.viol(rule, key, w.posOf(s.instr()), "a change arm appends %d elements to the buffer (expected exactly one per event)", cnt)
 			}
 		case "clear":
 			if subset(as, map[string]bool{"Query/Rollback": true}) {
-				a.hold(rule, key, w.posOf(s.Store), "ROLLBACK drops the buffered changes")
-				clearBlocks[s.Store.Block()] = true
+				a.hold(rule, key, w.posOf(s.instr()), "ROLLBACK drops the buffered changes")
+				clearBlocks[s.block()] = true
 			} else {
-				a.viol(rule, key, w.posOf(s.Store), "the transaction buffer is cleared in arm %q: buffered changes of an open transaction are lost", lab)
+				a.viol(rule, key, w.posOf(s.instr()), "the transaction buffer is cleared in arm %q: buffered changes of an open transaction are lost", lab)
 			}
 		default:
-			_, isSl := s.Store.Val.(*ssa.Slice)
-			_, isMk := s.Store.Val.(*ssa.MakeSlice)
-			if r.BeginMC == nil && (isSl || isMk) && subset(as, onlyBegin) {
-				a.hold(rule, key, w.posOf(s.Store), "BEGIN installs a fresh buffer")
-				installBlocks[s.Store.Block()] = true
+			_, isSl := s.val().(*ssa.Slice)
+			_, isMk := s.val().(*ssa.MakeSlice)
+			if r.Begin == nil && (isSl || isMk) && subset(as, onlyBegin) {
+				a.hold(rule, key, w.posOf(s.instr()), "BEGIN installs a fresh buffer")
+				installBlocks[s.block()] = true
 				break
 			}
-			a.viol(rule, key, w.posOf(s.Store), "the transaction buffer is overwritten in arm %q with %s", lab, describe(s.Store.Val))
+			a.viol(rule, key, w.posOf(s.instr()), "the transaction buffer is overwritten in arm %q with %s", lab, describe(s.val()))
 		}
 	}
 	for i, u := range r.Tran.otherUses() {
@@ -338,12 +388,12 @@ func c02R3(a *A, r *Roles, ar *Arms) {
 		if s.Fn != r.Parser {
 			continue
 		}
-		lab := ar.label(s.Store.Block())
-		b, isC := constBool(s.Store.Val)
-		if r.BeginMC == nil && isC && !b && beginBlocks[s.Store.Block()] {
+		lab := ar.label(s.block())
+		b, isC := constBool(s.val())
+		if r.Begin == nil && isC && !b && beginBlocks[s.block()] {
 			continue // the BEGIN arm marking the transaction open (judged as a begin site above)
 		}
-		a.check(lab == "init" && isC && b, rule, nk("flag-write", lab), w.posOf(s.Store), "flag initialised to 'no BEGIN open'",
+		a.check(lab == "init" && isC && b, rule, nk("flag-write", lab), w.posOf(s.instr()), "flag initialised to 'no BEGIN open'",
 			"the open/closed flag is written by the dispatch loop outside begin/commit")
 	}
 	for i, u := range r.Auto.otherUses() {
@@ -379,10 +429,8 @@ func c02R3(a *A, r *Roles, ar *Arms) {
 
 	// required effects per arm: on every path from the arm's entry back to the loop head
 	commitBlocks := map[*ssa.BasicBlock]bool{}
-	for _, ref := range *r.CommitMC.Referrers() {
-		if c, ok := ref.(*ssa.Call); ok {
-			commitBlocks[c.Block()] = true
-		}
+	for _, c := range r.commitCalls() {
+		commitBlocks[c.Block()] = true
 	}
 	in := func(m map[*ssa.BasicBlock]bool) func(*ssa.BasicBlock) bool {
 		return func(b *ssa.BasicBlock) bool { return m[b] }
@@ -409,7 +457,7 @@ func c02R3(a *A, r *Roles, ar *Arms) {
 			req(p.Name, "commit", p.Entry, in(commitBlocks), nil, "a commit event can pass without delivering the transaction")
 		case p.Name == "Query/Begin":
 			req(p.Name, "begin", p.Entry, in(beginBlocks), nil, "BEGIN can pass without opening a transaction")
-			if r.BeginMC == nil {
+			if r.Begin == nil {
 				req(p.Name, "begin-buffer", p.Entry, in(installBlocks), nil, "BEGIN can pass without installing a fresh buffer: the changes of the new transaction are appended to (or lost with) a stale one")
 			}
 		case p.Name == "Query/Rollback":
@@ -469,13 +517,13 @@ func c02R4(a *A, r *Roles) {
 		}
 		n++
 		key := fmt.Sprintf("commit-write[buffer#%d]", n)
-		if isNilConst(s.Store.Val) && accepted(s.Store.Block()) {
-			resetBlocks["buffer"][s.Store.Block()] = true
-			a.hold(rule, key, w.posOf(s.Store), "buffer reset after acceptance")
-		} else if isNilConst(s.Store.Val) {
-			a.viol(rule, key, w.posOf(s.Store), "the buffer is dropped before the handler accepted it: a rejected transaction loses its changes")
+		if isNilConst(s.val()) && accepted(s.block()) {
+			resetBlocks["buffer"][s.block()] = true
+			a.hold(rule, key, w.posOf(s.instr()), "buffer reset after acceptance")
+		} else if isNilConst(s.val()) {
+			a.viol(rule, key, w.posOf(s.instr()), "the buffer is dropped before the handler accepted it: a rejected transaction loses its changes")
 		} else {
-			a.viol(rule, key, w.posOf(s.Store), "the commit closure overwrites the buffer with %s", describe(s.Store.Val))
+			a.viol(rule, key, w.posOf(s.instr()), "the commit closure overwrites the buffer with %s", describe(s.val()))
 		}
 	}
 	for _, s := range r.Auto.stores() {
@@ -484,12 +532,12 @@ func c02R4(a *A, r *Roles) {
 		}
 		n++
 		key := fmt.Sprintf("commit-write[flag#%d]", n)
-		b, isC := constBool(s.Store.Val)
-		if isC && b && accepted(s.Store.Block()) {
-			resetBlocks["flag"][s.Store.Block()] = true
-			a.hold(rule, key, w.posOf(s.Store), "flag reset after acceptance")
+		b, isC := constBool(s.val())
+		if isC && b && accepted(s.block()) {
+			resetBlocks["flag"][s.block()] = true
+			a.hold(rule, key, w.posOf(s.instr()), "flag reset after acceptance")
 		} else {
-			a.viol(rule, key, w.posOf(s.Store), "the commit closure sets the open/closed flag to %s outside the accepted path", describe(s.Store.Val))
+			a.viol(rule, key, w.posOf(s.instr()), "the commit closure sets the open/closed flag to %s outside the accepted path", describe(s.val()))
 		}
 	}
 	// every success return passes both resets and the handler call
@@ -532,19 +580,19 @@ func c02R4(a *A, r *Roles) {
 	okBuf, okFlag := false, false
 	for _, s := range r.Tran.stores() {
 		if s.Fn == r.Begin {
-			v := s.Store.Val
+			v := s.val()
 			_, isSlice := v.(*ssa.Slice)
 			_, isMk := v.(*ssa.MakeSlice)
-			fresh := (isSlice || isMk) && s.Store.Block().Dominates(returnsOf(r.Begin)[0].Block())
-			a.check(fresh, rule, "begin-write[buffer]", w.posOf(s.Store), "fresh buffer installed", "begin does not install a fresh buffer on every path")
+			fresh := (isSlice || isMk) && s.block().Dominates(returnsOf(r.Begin)[0].Block())
+			a.check(fresh, rule, "begin-write[buffer]", w.posOf(s.instr()), "fresh buffer installed", "begin does not install a fresh buffer on every path")
 			okBuf = okBuf || fresh
 		}
 	}
 	for _, s := range r.Auto.stores() {
 		if s.Fn == r.Begin {
-			b, isC := constBool(s.Store.Val)
-			good := isC && !b && s.Store.Block().Dominates(returnsOf(r.Begin)[0].Block())
-			a.check(good, rule, "begin-write[flag]", w.posOf(s.Store), "flag cleared", "begin does not mark the transaction open on every path")
+			b, isC := constBool(s.val())
+			good := isC && !b && s.block().Dominates(returnsOf(r.Begin)[0].Block())
+			a.check(good, rule, "begin-write[flag]", w.posOf(s.instr()), "flag cleared", "begin does not mark the transaction open on every path")
 			okFlag = okFlag || good
 		}
 	}
